@@ -201,6 +201,28 @@ CLAIMED = {
          "the DEEP statement (every nested position; agreement with is_a_template_for) is not decided, and termination of the recursion "
          "through Vec elements and closures is assumed (allow-listed attribute, listed in trusted_base)."),
    design="§3/C17"),
+ "C20": dict(
+   category="exploration",
+   technique=("contract-based deductive verification (Verus on the mechanically extracted DomainGuard::new) for the one function within reach; "
+              "a BOUNDED native stand-in (pseudo-random documented-valid guards x near-miss hosts through the real validator, the real pattern "
+              "builder and a real matchit router) for validate / matchit_pattern, which the verifier cannot reach — labelled bounded, not proved"),
+   text=("Thin partial claim, mostly bounded. Proved (Verus, on the real text of DomainGuard::new): a guard is accepted exactly when "
+         "`validate` accepts the string it was given, and the stored domain is that string with its trailing dots removed ('one trailing "
+         "dot is ignored' on the guard side) — nothing else is stored, nothing is accepted around the validator. BOUNDED, not proved: "
+         "through the real DomainGuard::new + matchit_pattern and a real matchit router, with the three normalisation steps of the "
+         "generated router, ~1.5k (quick) / 20k (thorough) pseudo-random guards built from the documented grammar (1-4 labels, literal "
+         "labels, `{param}` with an optional literal suffix, a leading `{*param}`, optional trailing dot) x 24 near-miss hosts each are "
+         "accepted and match exactly the hosts the documented rules give; 17 forbidden and 10 permitted guard shapes from the "
+         "documentation and the DNS rules it cites get the documented verdict (63/64-character label boundary included)."),
+   note=("NOT decided: `validate` and `matchit_pattern` themselves are outside the verifier (str::split, chars().rev().peekable(), "
+         "take_while, IndexSet<char>, syn::parse_str — measured: Verus has no str/iterator reasoning, Kani does not converge at 2-5 "
+         "characters); `validate` is an uninterpreted oracle in the contract, trim_end_matches('.') is a retyped stand-in. The bounded "
+         "stand-in samples, it does not enumerate: a slip that needs a shape outside its grammar (253-character totals, non-ASCII, "
+         "parameter-name syntax beyond the listed cases) is not seen. The host normalisation is REPLICATED in the stand-in from "
+         "codegen/router.rs (it lives inside a quote! template): a change there is not seen. The conflict half of the statement "
+         "(detect_domain_conflicts: two guards that can match one host are rejected) is not decided — it is matchit's insert error, a "
+         "dependency. A host with several trailing dots is outside 'every host name' and not judged."),
+   design="§3/C20"),
  "C19": dict(
    text=("Partial claim — the builder-API -> schema half. Verus discharges, on the real text of all 17 registration methods of "
          "Blueprint, of RoutingModifiers (prefix/domain/nest/routes), of every Registered* modifier (error_handler, lifecycle, "
@@ -316,7 +338,7 @@ def main():
             "evidence_file": f"/verif/evidence/{pid}.json",
             "replay_cmd_template": f"./check {pid} --replay {{path}}",
             "engine": "verus-extract",
-            "level_claimed": {"category": "proof", "text": c["text"], "design_ref": c["design"]},
+            "level_claimed": {"category": c.get("category", "proof"), "text": c["text"], "design_ref": c["design"]},
             "level_note": c["note"],
             "technique": c.get("technique", TECH),
         })
